@@ -331,10 +331,11 @@ func verifC34Check(line []rune) {
 	rt.KnownFinding("C34-equals-prefix", verifC34KnownEqualsPrefix(line))
 	rt.KnownFinding("C34-inline-call", verifC34KnownInlineCall(line))
 	rt.KnownFinding("C34-empty-quoted-command", verifC34KnownEmptyQuoted(line))
+	rt.KnownFinding("C34-assign-paren-value", verifC34KnownAssignParen(line))
 	if rt.Param("setaside") == 1 {
 		// diagnostic runs only (never set in spec.json): leave the finding families out to
 		// see whether anything else is reported
-		rt.Assume(!verifC34KnownFlowParen(line) && !verifC34KnownEqualsPrefix(line) && !verifC34KnownInlineCall(line) && !verifC34KnownEmptyQuoted(line))
+		rt.Assume(!verifC34KnownFlowParen(line) && !verifC34KnownEqualsPrefix(line) && !verifC34KnownInlineCall(line) && !verifC34KnownEmptyQuoted(line) && !verifC34KnownAssignParen(line))
 	}
 	pt, _ := parser.Parse(line, 0)
 	rt.Reach("tokenized")
@@ -468,6 +469,17 @@ func VerifC34List() {
 func verifC34KnownEmptyQuoted(line []rune) bool {
 	for i := 0; i+2 < len(line); i++ {
 		if (line[i] == ' ' || line[i] == '\t') && (line[i+1] == '\'' || line[i+1] == '"') && line[i+2] == line[i+1] {
+			return true
+		}
+	}
+	return false
+}
+
+// verifC34KnownAssignParen: `name=(`: an assignment whose value starts with a parenthesis quote;
+// the tokenizer reads the `(` as the start of a quoted parameter and never sees the assignment.
+func verifC34KnownAssignParen(line []rune) bool {
+	for i := 1; i+1 < len(line); i++ {
+		if line[i] == '=' && line[i+1] == '(' && isBareChar(line[i-1]) {
 			return true
 		}
 	}
